@@ -84,6 +84,10 @@ Proof.
   apply andb_true_iff in H. destruct H as [H1 H2]. apply infoEqb_eq in H1. apply Bool.eqb_prop in H2. subst. reflexivity.
 Qed.
 
+(** the kernel must unfold the sweep constants before the bounded quantifiers (otherwise the
+    conversion check evaluates the whole sweep a second time with the lazy machine) *)
+Strategy 100 [all8 allBool allIn allDis parsesTo].
+
 (* ---------- piece moves (K Q R B N), short and long form ---------- *)
 Definition sweepPiece : bool :=
   allBool (fun wtm => allIn pieceLetters (fun L => allDis (fun d fx fy => allIn seps (fun sep =>
@@ -101,14 +105,9 @@ Lemma parse_piece_shape : forall wtm L d fx fy sep x2 y2,
   Some (mkInfo (charToPiece wtm L) fx fy (Z.of_N x2) (Z.of_N y2) (Z.of_N EMPTY), strEqb sep [ch_x]).
 Proof.
   intros wtm L d fx fy sep x2 y2 HL Hd Hs Hx Hy.
-  pose proof sweepPiece_ok as H. unfold sweepPiece in H.
-  eapply allBool_spec with (b := wtm) in H. cbv beta in H.
-  eapply allIn_spec in H; [|exact HL]. cbv beta in H.
-  eapply allDis_spec in H; [|exact Hd]. cbv beta in H.
-  eapply allIn_spec in H; [|exact Hs]. cbv beta in H.
-  eapply all8_spec in H; [|exact Hx]. cbv beta in H.
-  eapply all8_spec in H; [|exact Hy]. cbv beta in H.
-  apply parsesTo_eq. exact H.
+  apply parsesTo_eq.
+  exact (all8_spec _ (all8_spec _ (allIn_spec _ _ _ (allDis_spec _ (allIn_spec _ _ _
+           (allBool_spec _ sweepPiece_ok wtm) L HL) d fx fy Hd) sep Hs) x2 Hx) y2 Hy).
 Qed.
 
 (* ---------- pawn moves, short and long form, with promotion letter ---------- *)
@@ -131,14 +130,9 @@ Lemma parse_pawn_shape : forall wtm d fx fy sep pr x2 y2,
   Some (mkInfo (pawnPieceZ wtm fx fy) fx fy (Z.of_N x2) (Z.of_N y2) (promZ wtm pr), strEqb sep [ch_x]).
 Proof.
   intros wtm d fx fy sep pr x2 y2 Hd Hs Hp Hx Hy.
-  pose proof sweepPawn_ok as H. unfold sweepPawn in H.
-  eapply allBool_spec with (b := wtm) in H. cbv beta in H.
-  eapply allDis_spec in H; [|exact Hd]. cbv beta in H.
-  eapply allIn_spec in H; [|exact Hs]. cbv beta in H.
-  eapply allIn_spec in H; [|exact Hp]. cbv beta in H.
-  eapply all8_spec in H; [|exact Hx]. cbv beta in H.
-  eapply all8_spec in H; [|exact Hy]. cbv beta in H.
-  apply parsesTo_eq. exact H.
+  apply parsesTo_eq.
+  exact (all8_spec _ (all8_spec _ (allIn_spec _ _ _ (allIn_spec _ _ _ (allDis_spec _
+           (allBool_spec _ sweepPawn_ok wtm) d fx fy Hd) sep Hs) pr Hp) x2 Hx) y2 Hy).
 Qed.
 
 (* ---------- castling strings ---------- *)
